@@ -6,7 +6,7 @@
 import os,sys,subprocess,glob,threading,queue,shutil,re
 mode=sys.argv[1]; K=int(sys.argv[2]) if len(sys.argv)>2 else 4
 env=dict(os.environ,GOFLAGS='-mod=mod',GOPROXY='off',GOSUMDB='off',GOTOOLCHAIN='local',LOG_LEVEL='fatal')
-root='/tmp/par'; os.makedirs(root,exist_ok=True)
+root=os.environ.get('PARROOT','/tmp/par'); os.makedirs(root,exist_ok=True)
 jobs=queue.Queue()
 if mode=='seeds':
     # PARFIRST: file listing seed ids to run first (e.g. the newest round); PARSKIP: file listing ids to leave out
@@ -18,8 +18,11 @@ if mode=='seeds':
         if sid in skip: continue
         jobs.put((sid,d,sid.split('-')[0],'detect_'))
 else:
+    only=set(open(os.environ['PARONLY']).read().split()) if os.environ.get('PARONLY') else None
     for d in sorted(glob.glob('/verif/seeded/benign/C??-*')):
-        sid=os.path.basename(d); jobs.put((sid,d,sid.split('-')[0],'check_'))
+        sid=os.path.basename(d)
+        if only is not None and sid not in only: continue
+        jobs.put((sid,d,sid.split('-')[0],'check_'))
 lock=threading.Lock()
 def worker(k):
     wt=f'{root}/wt_{k}'; vd=f'{root}/v_{k}'
